@@ -45,6 +45,7 @@ Cfg ==
   CASE CfgName = "mem"      -> [DefaultCfg EXCEPT !.suspDelete = "code", !.suspNone = "None", !.oldNull = "keep"]
     [] CfgName = "memauto"  -> [DefaultCfg EXCEPT !.auto = TRUE, !.suspDelete = "code", !.suspNone = "None", !.oldNull = "keep"]
     [] CfgName = "plain"    -> [DefaultCfg EXCEPT !.versioned = FALSE, !.paginate = FALSE]
+    [] CfgName = "plainerr" -> [DefaultCfg EXCEPT !.versioned = FALSE, !.paginate = FALSE, !.pageErr = TRUE]
     [] CfgName = "plainauto" -> [DefaultCfg EXCEPT !.versioned = FALSE, !.paginate = FALSE, !.auto = TRUE]
     [] CfgName = "single"   -> [DefaultCfg EXCEPT !.versioned = FALSE, !.paginate = FALSE, !.single = "bkt1"]
     [] CfgName = "set"      -> DefaultCfg
@@ -150,6 +151,9 @@ Audit(s) == WithReply(s, AuditOps(s))
 
 Emit == PrintT(ToJson([h |-> hist',
                        a |-> IF hist'[Len(hist')].op.op \in Mutating THEN Audit(st') ELSE <<>>]))
+\* for walk recording: the history and the projection of the state it reaches,
+\* one line per distinct state (printed when the state is first reached)
+EmitState == PrintT(ToJson([h |-> hist, fin |-> Snap(st)]))      \* an INVARIANT: once per distinct state
 
 \* ---- design properties, checked on every transition ----
 LastOp  == hist'[Len(hist')].op
